@@ -124,7 +124,7 @@ def bad_scalar(t, swap):
 
 def run(tier, seed):
     V = common.Verdict("C02", tier, seed)
-    configs = ["K17"] if tier == "quick" else ["K17", "K17A", "K20"]
+    configs = ["K17", "K20"] if tier == "quick" else ["K17", "K17A", "K20"]
     nw = 0
     for cfg in configs:
         try:
